@@ -45,6 +45,22 @@ static void c08_auth(Buf *b, const char *ent, int ok) {
 }
 #define C08_IDX_POL  0x01500003u
 static void c08_neutral_line(Rsp r) { tr("d op=neutral rc=%u stores=%ld", r.rc, g_store_in_cmd); }
+/* an HMAC session BOUND to a DA-protected key, used with a wrong HMAC on an entity that is itself exempt (the owner hierarchy): a
+   session bound to a protected entity is protected like the entity — the lockout check applies and the failure counts */
+static void c08_auth_bound(Buf *b) {
+    Buf t = {0}; b_u16(&t, ALG_KEYEDHASH); b_u16(&t, ALG_SHA256); b_u32(&t, 0x00040072u); b_u16(&t, 0); b_u16(&t, ALG_HMAC); b_u16(&t, ALG_SHA256); b_u16(&t, 0);
+    cmd_begin(b, ST_SESSIONS, CC_CreatePrimary); b_u32(b, RH_OWNER); auth_pw(b, "", 0); b_u16(b, 4 + 2); b_2b(b, "kd", 2); b_u16(b, 0); b_2b(b, t.p, t.n); b_u16(b, 0); b_u32(b, 0); b_free(&t);
+    Rsp r = run(b); tr("d op=auth ent=exempt ok=1 rc=%u stores=%ld", r.rc, g_store_in_cmd);
+    if (r.rc != 0 || r.len < 14) return;
+    uint32_t kh = g32(r.p + 10); uint8_t nonce[16] = {0};
+    cmd_begin(b, ST_NO_SESSIONS, CC_StartAuthSession); b_u32(b, RH_NULL); b_u32(b, kh); b_2b(b, nonce, 16); b_u16(b, 0); b_u8(b, 0); b_u16(b, ALG_NULL); b_u16(b, ALG_SHA256);
+    r = run(b); c08_neutral_line(r);
+    if (r.rc == 0 && r.len >= 14) { uint32_t sh = g32(r.p + 10); uint8_t junk[32]; for (int q = 0; q < 32; q++) junk[q] = rnd(256);
+        cmd_begin(b, ST_SESSIONS, CC_ClockRateAdjust); b_u32(b, RH_OWNER); b_u32(b, 4 + 2 + 16 + 1 + 2 + 32); b_u32(b, sh); b_2b(b, nonce, 16); b_u8(b, 1); b_2b(b, junk, 32); b_u8(b, 0);
+        r = run(b); tr("d op=auth ent=da ok=0 via=bound rc=%u stores=%ld", r.rc, g_store_in_cmd);
+        cmd_begin(b, ST_NO_SESSIONS, CC_FlushContext); b_u32(b, sh); Rsp f = run(b); if (f.rc == 0) c08_neutral_line(f); }
+    cmd_begin(b, ST_NO_SESSIONS, CC_FlushContext); b_u32(b, kh); r = run(b); c08_neutral_line(r);
+}
 /* authorization of the DA-protected policy index through a policy session on which PolicyPassword was run */
 static void c08_auth_policy(Buf *b, int ok) {
     uint8_t nonce[16] = {0};
@@ -134,7 +150,7 @@ static void scen_c08(int histories, int maxops) {
             switch (rnd(16)) {
             case 0: case 1: case 2: case 3: c08_auth(&b, "da", chance(35)); break;
             case 4: if (chance(50)) c08_auth(&b, "da", 1); else c08_auth_policy(&b, chance(40)); break;
-            case 5: c08_auth(&b, "exempt", chance(40)); break;
+            case 5: if (chance(30)) c08_auth_bound(&b); else c08_auth(&b, "exempt", chance(40)); break;
             case 6: c08_lockreset(&b, chance(60)); break;
             case 7: c08_params(&b, chance(70), c08_pick(MT, 7), c08_pick(RT, 7), c08_pick(LR, 5)); break;
             case 8: case 9: c08_caps(&b); break;
